@@ -31,12 +31,36 @@ package api
 //	       one or several members; profiles "none"/"latency" (request time-out 30-60
 //	       min, i.e. nothing can time out) and "errors" (the fault set above).
 //
+// Extension round "ordinary but unexplored inputs" (const switches c18Gen*):
+//
+//	mutex  values=2: every member asks cluster.Mutex twice for the one name (as the
+//	       mesh controller's storage.New does 7 times per member) and its goroutines
+//	       lock through either value. Found C18.two-holders-two-mutex-values-one-member
+//	       (process-local lock was per value, etcd key per member), fixed in /repo c2b83a7.
+//	api    unacceptable create/update requests (not YAML, unknown kind, no name, name
+//	       outside the alphabet, empty body, PUT whose URL and body name differ):
+//	       model op "bad-request" = any 4xx, nothing changes, X-Config-Version is a
+//	       read of the counter; bodies as JSON / with document marker, comment, other
+//	       key order and explicit version field / quoted scalars, CRLF and an unknown
+//	       field; name pools whose names are prefixes of each other or contain
+//	       - . _ ~ digits and upper case; stored version beyond 32 bits;
+//	       DELETE /status/members/{ghost|nobody} (Server.Lock user that revokes a
+//	       lease; model: 200 once for the departed member "ghost", else 404, no
+//	       version change); '~' of a name sent as %7E in the URL (statement silent:
+//	       normal rules or 4xx without change; on this tree always 4xx, probe
+//	       percent_encoded_tilde_in_url_answered_4xx: chi routes on URL.RawPath and
+//	       hands the undecoded segment to the handlers).
+//
 // Oracle (written from the property statement):
 //
 //	O1 (both modes; the mutexes are observed through a wrapper around
 //	    cluster.Cluster.Mutex, so the api.Server's own mutex is covered too)
 //	  a Lock returned nil while another Lock that returned nil has not yet called
 //	  Unlock; the class names the constellation (see c18Env.enter):
+//	  C18.two-holders-two-mutex-values-one-member  two goroutines of ONE member, each
+//	                                    through its own cluster.Mutex value for the name
+//	                                    (or: an Unlock through the other value removed
+//	                                    the key under the holder)
 //	  C18.two-holders-same-member       two goroutines of ONE member
 //	  C18.two-holders-during-unlock     ... while an Unlock of that member still runs
 //	  C18.two-holders-after-late-delete the lock key of one of the two was deleted
@@ -522,17 +546,19 @@ type c18Member struct {
 	lastOp       string // lock-ok | lock-fail | unlock-ok | unlock-fail
 	lastOpRev    int64  // store revision when the member's last Lock/Unlock call returned
 	tenureRev    int64  // lastOpRev as it was when the current tenure's Lock call returned
-	usedVals     int    // bit set of the cluster.Mutex values (1, 2) through which the member has called Lock
+	unlockVal    int    // value through which the member's latest Unlock was called
+	unlockTick   int    // e.tick when that Unlock returned
 	unlocking    int    // Unlock calls in progress
 	failedLock   int
 	failedUnlock int
 }
 
 type c18Holder struct {
-	id  string
-	m   *c18Member
-	val int // which cluster.Mutex value of the member
-	at  time.Duration
+	id   string
+	m    *c18Member
+	val  int // which cluster.Mutex value of the member
+	at   time.Duration
+	tick int // e.tick at entry
 }
 
 type c18Env struct {
@@ -558,6 +584,7 @@ type c18Env struct {
 	holders []c18Holder
 	mxLog   []string
 	lockSeq int
+	tick    int // counts entries and Unlock returns
 
 	acquired   int
 	contended  int
@@ -774,7 +801,7 @@ func (c *c18Cluster) Mutex(name string) (cluster.Mutex, error) {
 	c.e.r.Yield("cluster.Mutex")
 	mx, err := c.Cluster.Mutex(name)
 	c.created++
-	if c.created > 1 {
+	if c.created > 1 && c.e.sc.Mode == "api" {
 		c.e.r.Probe("member_created_several_mutex_objects")
 	}
 	if err != nil {
@@ -811,9 +838,6 @@ func (o *c18ObsMutex) Unlock() error {
 func (o *c18ObsMutex) LockAs(id string) error {
 	e := o.e
 	waited := len(e.holders) > 0
-	if o.val == 1 || o.val == 2 {
-		o.m.usedVals |= o.val
-	}
 	err := o.inner.Lock()
 	// no gate between the return of Lock and the bookkeeping
 	prevRev := o.m.lastOpRev
@@ -840,8 +864,11 @@ func (o *c18ObsMutex) UnlockAs(id string) error {
 	e := o.e
 	e.leave(id)
 	o.m.unlocking++
+	o.m.unlockVal = o.val
 	err := o.inner.Unlock()
 	o.m.unlocking--
+	e.tick++
+	o.m.unlockTick = e.tick
 	o.m.lastOpRev = e.store.Rev()
 	if err == nil {
 		o.m.lastOp = "unlock-ok"
@@ -932,9 +959,10 @@ func (e *c18Env) enter(id string, m *c18Member, val int) {
 			// (or, as a consequence, the Unlock through one value deleted the key
 			// under the holder that came in through the other one)
 			class = "C18.two-holders-two-mutex-values-one-member"
-		case (h.m.usedVals == 3 || m.usedVals == 3) && !late:
-			// consequence of the same: the Unlock through one value deleted the
-			// member's key under a holder that came in through the other value
+		case !late && h.m.unlockVal != 0 && h.m.unlockVal != h.val && (h.m.unlockTick > h.tick || h.m.unlocking > 0):
+			// consequence of the same: an Unlock through the member's OTHER value,
+			// running or finished after the holder came in, deleted the member's
+			// key under it
 			class = "C18.two-holders-two-mutex-values-one-member"
 		case h.m == m:
 			// the process-local lock did not serialise two goroutines of one member
@@ -955,7 +983,8 @@ func (e *c18Env) enter(id string, m *c18Member, val int) {
 		}
 		c18Violate(r, class, "%s acquired the mutex at %v while %s (holding since %v) has not called Unlock\n%s%s", id, r.Now(), h.id, h.at, extra, e.describe())
 	}
-	e.holders = append(e.holders, c18Holder{id: id, m: m, val: val, at: r.Now()})
+	e.tick++
+	e.holders = append(e.holders, c18Holder{id: id, m: m, val: val, at: r.Now(), tick: e.tick})
 }
 
 func (e *c18Env) leave(id string) {
@@ -2177,7 +2206,7 @@ func TestVerifC18(t *testing.T) {
 		New:      func() interface{} { return &c18Scenario{} },
 		Exec:     c18Exec,
 		MaxSteps: 150000,
-		Rule: "scenario = mode mutex (1-3 members x 1-3 goroutines, 1-4 Lock/hold/Unlock each, request time-out 50ms-1.7s, RPC latency 0-80ms, hold times up to 2.5 x time-out) or mode api (1-3 api servers, 2-4 client tasks, <=20 create/update/delete/get/list on 2-3 names, profiles none / latency / errors), plus timed faults (slow request applied after the client gave up, slow reply, refused RPC, reply lost after apply, server stop/start) and a final liveness probe by a member that took no part; " +
+		Rule: "scenario = mode mutex (1-3 members x 1-3 goroutines, 1-4 Lock/hold/Unlock each, request time-out 50ms-1.7s, RPC latency 0-80ms, hold times up to 2.5 x time-out; in 30% every member has two cluster.Mutex values for the one name) or mode api (1-3 api servers, 2-4 client tasks, <=20 create/update/delete/get/list plus unacceptable create/update requests and member purges on 2-3 names from five name pools, four body styles, initial version up to 1e12, profiles none / latency / errors), plus timed faults (slow request applied after the client gave up, slow reply, refused RPC, reply lost after apply, server stop/start) and a final liveness probe by a member that took no part; " +
 			"non-trivial = mutex: >=2 acquisitions and one of them had to wait for a holder; api: >=2 successful mutations and two mutation requests overlapped; distinct = distinct acquisition order + failure count / distinct version-ordered sequence of successful mutations",
 		Real: []string{"pkg/cluster mutex.Lock/Unlock, cluster.Mutex/getSession/initLease/grantNewLease/Get/Put/Delete/GetPrefix (instrumented sync)", "go.etcd.io/etcd/client/v3 + concurrency.Session/Mutex, google.golang.org/grpc over simnet",
 			"pkg/api Server.Lock/Unlock/getMutex, registerAPIs, dynamicMux.reloadAPIs (chi router, StripSlashes, API logger, config-version attacher, recoverer), createObject/updateObject/deleteObject/getObject/listObjects, _getVersion/_plusOneVersion/_getObject/_putObject/_deleteObject/_listObjects, supervisor.NewSpec"},
@@ -2190,6 +2219,9 @@ func TestVerifC18(t *testing.T) {
 			"full O2 only on runs without 5xx answers; with 5xx answers only distinct + real-time-increasing versions of the successes",
 			"porcupine search bounded by 3e6 model steps; exhausted = inconclusive",
 			"X-Config-Version of non-mutating / refused requests is treated as a read of the counter inside the request interval",
+			"an unacceptable create/update request (not YAML, unknown kind, missing / invalid name, empty body, URL name != body name) is not a successful request: any 4xx is accepted, 2xx is C18.unexpected-status, and it must not change objects or version",
+			"purging a member (DELETE /status/members/x) is not a create/update/delete of an object: 200 once for the existing departed member, 404 otherwise, no version change",
+			"a name whose '~' is percent-encoded in the URL: normal outcome or 4xx without change are both accepted (statement silent)",
 		},
 	})
 }
